@@ -18,7 +18,7 @@ def run(ctx):
     heapcheck.shape_stage(ctx, res, 80 if q else 2000, 6 if q else 12, as_failure=True, gen_kw={"max_rules": 12, "npasses": 1, "ipos": 1, "allow": ("next", "put_glyph", "put_glyph", "insert", "delete")})
     # rules that walk over the high-water mark and return a backward or forward jump: the programs in which what the pass applies, and how
     # often (MaxRuleLoop), depends on the book-keeping of `highpassed` in Pass::adjustSlot / runGraphite
-    heapcheck.shape_stage(ctx, res, 80 if q else 1500, 6 if q else 10, as_failure=True, fontgen=lambda r: fontsynth.gen_jump_font(r),
+    heapcheck.shape_stage(ctx, res, 80 if q else 600, 6 if q else 8, as_failure=True, fontgen=lambda r: fontsynth.gen_jump_font(r),
                           textgen=lambda r: fontsynth.gen_jump_text(r), refusable=True,
                           label="jump fonts: %d one-rule substitution passes (pattern `b c..c`, action next/insert/delete, return value -120..100, maxRuleLoop 1|2|5) x %d texts `a..a b c..c`")
     return res.as_dict()
